@@ -749,8 +749,10 @@ func NewFilledFeatureReferences(byID *FeaturesByID) *FeatureReferencesByID {
 func (f *FeatureReferencesByID) findReferences(id b6.FeatureID, m *map[b6.Reference]bool) {
 	if references, ok := (*f)[id]; ok {
 		for _, reference := range references {
-			(*m)[reference] = true
-			f.findReferences(reference.Source(), m)
+			if !(*m)[reference] { // references can form cycles, eg a relation that's a member of itself
+				(*m)[reference] = true
+				f.findReferences(reference.Source(), m)
+			}
 		}
 	}
 }
